@@ -3,10 +3,12 @@
 # Never leaves /repo modified. Prints one line per check: SEED <patch> <ID> rc=<rc> violations=<n> keys=...
 PATCH="$(realpath "$1")"; shift
 if [ -n "$(git -C /repo status --porcelain --untracked-files=no)" ]; then echo "refusing: /repo has uncommitted changes"; exit 2; fi
-trap 'git -C /repo checkout -- . >/dev/null 2>&1' EXIT
+trap 'git -C /repo reset -q --hard HEAD >/dev/null 2>&1' EXIT   # safe: the script refuses to start on a dirty /repo
 if ! git -C /repo apply "$PATCH" 2>/dev/null; then
-  if ! git -C /repo apply -3 "$PATCH" >/dev/null 2>&1; then echo "SEED $PATCH does-not-apply"; exit 3; fi
-  git -C /repo reset -q   # keep the change in the working tree only
+  REB="$(dirname "$PATCH")/patch-rebased.diff"
+  if [ -f "$REB" ] && git -C /repo apply "$REB" 2>/dev/null; then :;
+  elif ! git -C /repo apply -3 "$PATCH" >/dev/null 2>&1; then git -C /repo reset -q --hard HEAD; echo "SEED $PATCH does-not-apply"; exit 3;
+  else git -C /repo reset -q; fi   # keep the change in the working tree only
 fi
 TIER="${SEED_TIER:-quick}"
 for ID in "$@"; do
